@@ -71,8 +71,13 @@ void SelectLoop::runLoop(Mode mode)
                 bool is_except   = FD_ISSET(fd, &except_set);
 
                 if (is_readable || is_writable || is_except) {
-                    auto *data = fd_data_map_.at(fd);
-                    SelectFdEvent::OnEventCallback(is_readable, is_writable, is_except, data);
+                    //! 该fd的所有事件可能已在本轮更早的回调中被销毁，此时其共享数据已不存在，跳过
+                    //! (all events of this fd may have been deleted by a callback served earlier in this pass)
+                    auto iter = fd_data_map_.find(fd);
+                    if (iter == fd_data_map_.end())
+                        continue;
+
+                    SelectFdEvent::OnEventCallback(is_readable, is_writable, is_except, iter->second);
                 }
             }
         } else if (select_ret == -1) {
